@@ -214,6 +214,18 @@ func (vc *VC) finish(top *Frame) {
 	if len(cols) == 1 {
 		extra["result"] = cols[0]
 	}
+	for i, sv := range cols {
+		if sv.T != "" {
+			vc.final = append(vc.final, finalRoot{goName: fmt.Sprintf("out%d", i), src: fmt.Sprintf("result.%d", i), term: sv.T, typ: results.At(i).Type(), st: st})
+		}
+	}
+	for i, p := range fn.Params {
+		if sv := top.params[p.Name()]; sv.P != nil && sv.P.obj != nil {
+			if cur, ok := st.objs[sv.P.obj]; ok && cur.T != "" {
+				vc.final = append(vc.final, finalRoot{goName: fmt.Sprintf("in%d", i), src: p.Name(), term: cur.T, typ: sv.P.typ, st: st})
+			}
+		}
+	}
 	pos := vc.eng.fset.Position(fn.Pos())
 	if vc.con != nil {
 		for i, e := range vc.con.Ensures {
@@ -383,7 +395,20 @@ func (o *Obl) smtText(withModel bool) (string, error) {
 	b.WriteString("; clause:     " + o.Clause + "\n")
 	b.WriteString("(set-option :produce-models true)\n(set-logic ALL)\n")
 	b.WriteString(pre)
+	if o.Raw != "" {
+		b.WriteString("; ---- lemma body\n")
+		b.WriteString(o.Raw)
+		b.WriteString("\n(check-sat)\n")
+		if withModel {
+			b.WriteString("(get-model)\n")
+		}
+		return b.String(), nil
+	}
 	b.WriteString("; ---- context\n")
+	for _, l := range vc.decls {
+		b.WriteString(l)
+		b.WriteString("\n")
+	}
 	for _, l := range vc.lines[:o.Prefix] {
 		b.WriteString(l)
 		b.WriteString("\n")
